@@ -18,6 +18,8 @@ struct Op {
     std::vector<std::vector<LatLng>> loops;  // loops[0] outer, rest holes
     std::string str;
     std::string tag;  // generator family, for evidence only
+    int share = 0;    // C18: ops with equal non-zero share id and equal
+                      // arguments read the SAME caller-owned input buffers
     FaultPlan fault;  // attached to the operation, never a global index
 
     JP toJson(bool withFault = true) const;
@@ -43,7 +45,14 @@ struct Result {
     std::string brief() const;
 };
 
+// caller-owned input buffers shared between several operations (C18)
+struct SharedInput {
+    const H3Index *cells = nullptr;
+    GeoPolygon *poly = nullptr;
+};
+
 struct ExecOpts {
+    const SharedInput *shared = nullptr;
     double wallLimitSec = 0;   // watchdog for single-threaded modes
     bool destroyLinked = true; // call destroyLinkedMultiPolygon after success
     // called between cellsToLinkedMultiPolygon's return and destroy; used by
